@@ -375,6 +375,7 @@ def stream_plain(c, spec, tmp, rng, pending, nsteps):
     cur_dt = dt0
     steps_wire = []
     raised_at = None
+    plan = []  # per step: (input values, (name, value) set on a state or None, effective dt)
     settable = [s_["n"] for s_ in spec["states"]] + [a["n"] for a in spec["aliases"]
                                                       if a["of"] in [s_["n"] for s_ in spec["states"]]]
     for k in range(nsteps):
@@ -382,6 +383,7 @@ def stream_plain(c, spec, tmp, rng, pending, nsteps):
         for u, val in zip(spec["inputs"], useq[k + 1]):
             sim.set_var(u, val)
         extra_sets = []
+        ext = None
         if rng.random() < 0.3:
             # BMI-style use: the caller overwrites a state (possibly through an alias) between steps;
             # the next step must start from exactly that value
@@ -396,9 +398,11 @@ def stream_plain(c, spec, tmp, rng, pending, nsteps):
             prev = snap(sim, names)
             log[-1] = prev
             extra_sets.append({"idx": w.idx[name][0], "neg": w.idx[name][1], "v": fr(val)})
+            ext = (name, val)
         dta = dts[k]
         dt = dta if dta > 0 else cur_dt
         cur_dt = dt
+        plan.append((useq[k + 1], ext, dt))
         r = call(sim.update, dta)
         steps_wire.append({"dt": fr(dta), "set": [{"idx": w.idx[u][0], "neg": False, "v": fr(val)}
                                                     for u, val in zip(spec["inputs"], useq[k + 1])]
@@ -433,6 +437,80 @@ def stream_plain(c, spec, tmp, rng, pending, nsteps):
                 c.disagree("step residual (model vs oracle evaluation)", case, out, exp)
 
         pending.append((line, cmp_res))
+    # ---- reset(): puts the state right after initialize() back, any number of times; a run re-started
+    #      after a reset with the same inputs repeats the first run
+    def do_reset(tag):
+        r = call(sim.reset)
+        if r[0] == "raise":
+            c.fail("%s: reset() raised: %s" % (tag, r[1]), case)
+            return False
+        now = snap(sim, names)
+        bad = {n_: {"after_reset": now[n_], "after_initialize": v0[n_]} for n_ in names if now[n_] != v0[n_]}
+        c.count(("plain-reset", spec["name"], tag))
+        c.hit("plain/reset")
+        if bad:
+            c.fail("%s: after reset() get_var differs from its value right after initialize()" % tag, case, bad)
+            return False
+        if float(sim.get_current_time()) != start:
+            c.fail("%s: current time after reset() is not the start time" % tag, case,
+                   {"time": float(sim.get_current_time()), "start": start})
+            return False
+        return True
+
+    def wire_step(ins, ext, dt, tprev, reset):
+        st = {"dt": fr(dt), "reset": bool(reset),
+              "set": [{"idx": w.idx[u][0], "neg": False, "v": fr(val)} for u, val in zip(spec["inputs"], ins)]}
+        if ext:
+            st["set"].append({"idx": w.idx[ext[0]][0], "neg": w.idx[ext[0]][1], "v": fr(ext[1])})
+        st["set"].append({"idx": w.i_sin, "neg": False, "v": fr(math.sin(tprev + dt))})
+        return st
+
+    if do_reset("first reset") and raised_at is None and post:
+        first = list(post)
+        m = min(len(plan), rng.randint(2, 4))
+        ok = True
+        for k in range(m):
+            ins, ext, dt = plan[k]
+            for u, val in zip(spec["inputs"], ins):
+                sim.set_var(u, val)
+            if ext:
+                sim.set_var(ext[0], ext[1])
+            tprev = float(sim.get_var("time"))
+            r = call(sim.update, dt)
+            steps_wire.append(wire_step(ins, ext, dt, tprev, k == 0))
+            if r[0] == "raise":
+                c.fail("re-run after reset() raised where the first run returned: " + r[1], dict(case, step=k))
+                raised_at = len(steps_wire) - 1
+                ok = False
+                break
+            cur = snap(sim, names)
+            post.append(cur)
+            bad = {n_: {"first_run": first[k][n_], "after_reset": cur[n_]} for n_ in names
+                   if not abs(cur[n_] - first[k][n_]) <= 1e-9 * max(1.0, abs(first[k][n_]), nm.get(n_, 1.0))}
+            c.count(("plain-reset-rerun", spec["name"], k))
+            if bad:
+                c.fail("trajectory re-simulated after reset() differs from the first run (same inputs, same dt)",
+                       dict(case, step=k), bad)
+                ok = False
+                break
+        # second reset, then a run with another step size
+        if ok and do_reset("second reset"):
+            dtc = rng.choice([d for d in (0.5, 0.75, 1.25, 2.0) if d != plan[0][2]])
+            for k in range(2):
+                ins = [G.dy(rng, -2, 2) for _ in spec["inputs"]]
+                for u, val in zip(spec["inputs"], ins):
+                    sim.set_var(u, val)
+                prev = snap(sim, names)
+                r = call(sim.update, dtc)
+                steps_wire.append(wire_step(ins, None, dtc, prev["time"], k == 0))
+                if r[0] == "raise":
+                    raised_at = len(steps_wire) - 1
+                    c.hit("plain/step-raise")
+                    break
+                cur = snap(sim, names)
+                post.append(cur)
+                check_step(c, dict(case, step="after second reset %d" % k), spec, prev, cur, dtc, "plain")
+                c.count(("plain-reset-step", spec["name"], k))
     # model get_var (index, sign, nominal) on the last state vector vs the real get_var of every name
     last = log[-1]
     qn = [n_ for n_ in names if n_ in w.idx]
